@@ -6,6 +6,7 @@ import Driver.RotSuite
 import Driver.CodecSuite
 import Driver.InitSuite
 import Driver.InitSpec
+import Driver.BeaconSuite
 /-
   vpmodel: reads lines `op<TAB>implementation observation`, prints `model observation<TAB>spec verdict`.
 -/
@@ -25,6 +26,9 @@ def stepLine (st : DState) (line : String) : DState × String :=
   let toks := (op.splitOn " ").filter (· ≠ "")
   if toks = ["reset"] then (({} : DState), "ok\t-") else
   match pureStep toks implObs with
+  | some (m, s) => (st, m ++ "\t" ++ s)
+  | none =>
+  match beaconStep toks implObs with
   | some (m, s) => (st, m ++ "\t" ++ s)
   | none =>
   match codecStep toks implObs with
